@@ -6,6 +6,7 @@ import (
 	"fmt"
 	"io"
 	"math/rand"
+	"sort"
 	"sync"
 
 	"github.com/nautilus/gateway"
@@ -103,4 +104,84 @@ func UploadThroughGateway(r *rand.Rand) []Failure {
 		return bad("after the execution the request's variables no longer hold the file at the position its map entry named (a service call was handed the request's own map)", "upload", after)
 	}
 	return nil
+}
+
+// L0.upload-net: a multipart request through the handler of a gateway in its DEFAULT configuration: the executor hands
+// the injected uploads to the client library's network queryer, which sends a multipart request of its own; the
+// service must receive every file at the variable position the client's map entry named.
+
+const uploadNetSDL = `
+scalar Upload
+input In { file: Upload tag: String }
+type File { name: String! }
+type Query { files: [File!]! }
+type Mutation { upload(file: Upload!, tag: String): File! uploadMany(files: [Upload!]!): File! uploadIn(input: In!): File! }
+`
+
+func UploadThroughNet(r *rand.Rand) []Failure {
+	spec := FedSpec{SDLs: map[string]string{"U": uploadNetSDL}, Order: []string{"U"}}
+	nf, err := NewNetFed(spec, Store{})
+	if err != nil {
+		return []Failure{{Channel: "harness", Classifier: "harness-error", What: err.Error()}}
+	}
+	defer nf.Close()
+	svc := nf.Services["U"]
+	svc.Answer = func(query string, vars map[string]interface{}) map[string]interface{} {
+		f := map[string]interface{}{"name": "f"}
+		return map[string]interface{}{"upload": f, "uploadMany": f, "uploadIn": f}
+	}
+	type shape struct {
+		query string
+		vars  map[string]interface{}
+		files map[string]string // position -> content
+	}
+	c1, c2 := fmt.Sprintf("content-%d", r.Intn(1000)), fmt.Sprintf("other-%d", r.Intn(1000))
+	shapes := []shape{
+		{`mutation ($file: Upload!) { upload(file: $file) { name } }`, map[string]interface{}{"file": nil}, map[string]string{"variables.file": c1}},
+		{`mutation ($file: Upload!, $tag: String) { upload(file: $file, tag: $tag) { name } }`, map[string]interface{}{"file": nil, "tag": "t"}, map[string]string{"variables.file": c1}},
+		{`mutation ($files: [Upload!]!) { uploadMany(files: $files) { name } }`, map[string]interface{}{"files": []interface{}{nil, nil}}, map[string]string{"variables.files.0": c1, "variables.files.1": c2}},
+		{`mutation ($input: In!) { uploadIn(input: $input) { name } }`, map[string]interface{}{"input": map[string]interface{}{"file": nil, "tag": "t"}}, map[string]string{"variables.input.file": c1}},
+	}
+	sh := shapes[r.Intn(len(shapes))]
+	ops, _ := json.Marshal(map[string]interface{}{"query": sh.query, "variables": sh.vars})
+	m := map[string][]string{}
+	files := map[string]string{}
+	k := 0
+	var positions []string
+	for p := range sh.files {
+		positions = append(positions, p)
+	}
+	sort.Strings(positions)
+	for _, p := range positions {
+		m[fmt.Sprint(k)] = []string{p}
+		files[fmt.Sprint(k)] = sh.files[p]
+		k++
+	}
+	mb, _ := json.Marshal(m)
+	hc := HTTPCase{Method: "POST", Target: "/graphql", Form: map[string]string{"operations": string(ops), "map": string(mb)}, Files: files}
+	rec, panicked := hc.Serve(nf.GW)
+	bad := func(what string, exp, obs interface{}) []Failure {
+		return []Failure{{Channel: "L0.upload-net", Classifier: "unclassified", What: what, Input: hc, Expected: exp, Observed: obs}}
+	}
+	if panicked != nil {
+		return bad(fmt.Sprintf("the handler panicked: %v", panicked), nil, nil)
+	}
+	svc.mu.Lock()
+	got := append([]map[string]string{}, svc.Files...)
+	svc.mu.Unlock()
+	if len(got) != 1 {
+		return bad(fmt.Sprintf("the service received %d requests for one upload mutation", len(got)), 1, map[string]interface{}{"status": rec.Code, "body": truncate(rec.Body.String(), 300)})
+	}
+	if Canon(toIfaceMap(got[0])) != Canon(toIfaceMap(sh.files)) {
+		return bad("the files the service received (by the position their map entry names) are not the files the client sent", sh.files, map[string]interface{}{"files": got[0], "status": rec.Code, "body": truncate(rec.Body.String(), 300)})
+	}
+	return nil
+}
+
+func toIfaceMap(m map[string]string) map[string]interface{} {
+	out := map[string]interface{}{}
+	for k, v := range m {
+		out[k] = v
+	}
+	return out
 }
